@@ -44,6 +44,16 @@ NumCases ==
   UNION {{[group |-> "num", ty |-> ty, facet |-> f, x10 |-> x, valid |-> ValidNum(ty, f, x)] :
             x \in (IF f = "none" THEN Probes(ty) ELSE AroundFacet)} :
               ty \in NumTypes \ {"Integer32", "UnsignedInteger32"}, f \in NumFacets}
+\* the thorough tier: the 16-bit types over the 600 values around each of their bounds, every facet over a dense grid of tenths
+\* (4.5, 4.9, 5.0, 5.1 ...: the fractional types meet their bounds between the integers), and the instants over a finer grid
+ProbesMore(ty) == CASE ty = "Integer16" -> {10 * x : x \in ((0 - 33068)..(0 - 32468)) \cup (32467..33067)}
+                    [] ty = "UnsignedInteger16" -> {10 * x : x \in ((0 - 300)..300) \cup (65235..65835)}
+                    [] OTHER -> {}
+AroundFacetMore == 25..75
+NumCasesMore ==
+  UNION {{[group |-> "num", ty |-> ty, facet |-> f, x10 |-> x, valid |-> ValidNum(ty, f, x)] :
+            x \in (IF f = "none" THEN ProbesMore(ty) ELSE AroundFacetMore)} :
+              ty \in NumTypes \ {"Integer32", "UnsignedInteger32"}, f \in NumFacets}
 \* 2^31 boundaries exceed TLC integers when multiplied by ten: listed as digit strings instead
 BigCases == { [group |-> "big", ty |-> p[1], facet |-> "none", lit |-> p[2], valid |-> p[3]] : p \in {
    <<"Integer32", "2147483647", TRUE>>, <<"Integer32", "2147483648", FALSE>>, <<"Integer32", "-2147483648", TRUE>>,
@@ -156,6 +166,9 @@ OutCases == {[group |-> "out", ty |-> "ByteArray", facet |-> e, bytes |-> b, lit
                  <<"Double", "1e+22">>, <<"Double", "1e-07">>, <<"Double", "-0.0">>, <<"Double", "inf">>, <<"Double", "nan">>,
                  <<"Integer", "123456789012345678901234567890">>, <<"Unicode", "lt_amp">>, <<"Unicode", "sp_lead">> }}
 
+DateCasesMore == {[group |-> "date", ty |-> "DateTime", facet |-> f, delta |-> d, off |-> o, valid |-> ValidDate(f, d)] :
+                   f \in DateFacets, d \in ((0 - 61)..61) \cup {0 - 90, 90, 0 - 720, 720}, o \in {0, 60, 0 - 60, 330, 0 - 570, 840}}
+CasesMore == NumCasesMore \cup DateCasesMore
 Cases == ObjArrCases \cup NumCases \cup BigCases \cup StrCases \cup EnumCases \cup OccCases \cup NilCases \cup DateCases \cup ZoneCases \cup TimeCases \cup InhCases \cup SubNameCases \cup AttrReqCases \cup LexCases
 
 \* ---- laws of the table (anti-vacuity): every facet is effective - some probe is rejected by it
